@@ -373,8 +373,11 @@ static void run_c01_stacked(void)
     int skind[2];
     for (int k = 0; k < nsched; k++) {
         ABT_OK(ABT_pool_create_basic(pk[plan_n(3)], ABT_POOL_ACCESS_MPMC, ABT_TRUE, &sp[k]));
-        skind[k] = (int)plan_n(4);
-        ABT_OK(ABT_sched_create_basic(kinds[skind[k]], 1, &sp[k], ABT_SCHED_CONFIG_NULL, &ss[k]));
+        skind[k] = (int)plan_n(5);
+        if (skind[k] == 4)
+            ss[k] = wl_make_user_sched(1, &sp[k]); /* a user-defined scheduler (ABT_sched_def) */
+        else
+            ABT_OK(ABT_sched_create_basic(kinds[skind[k]], 1, &sp[k], ABT_SCHED_CONFIG_NULL, &ss[k]));
     }
     sim_note("C01 stacked scheds=%d(%s,%s) units=%d: ", nsched, wl_sched_names[skind[0]], nsched > 1 ? wl_sched_names[skind[1]] : "-", n);
     for (int i = 0; i < n; i++) {
@@ -400,6 +403,12 @@ static void run_c01_stacked(void)
     }
     /* now hand the schedulers (with their populated pools) to pools of the runtime */
     for (int k = 0; k < nsched; k++) {
+        /* a finish request issued up front (the handle may die as soon as the scheduler runs):
+         * the scheduler must still run everything that is in its pool before it stops */
+        if (plan_n(3) == 0) {
+            ABT_OK(ABT_sched_finish(ss[k]));
+            sim_count("c01.stacked_sched_finish_requests", 1);
+        }
         ABT_OK(ABT_pool_add_sched(wl_any_pool(rt), ss[k]));
         sim_progress();
     }
